@@ -209,6 +209,7 @@ def LARGE(arr, n):
     n = utils.parse_number(n)
     if isinstance(n, error.XLError):
         return n
-    if n < 1 or n > len(arr):
+    items = sorted(utils.inumbers(arr, try_parse=True, text_is_zero=True))
+    if n < 1 or n > len(items):
         return error.NUM
-    return sorted(utils.inumbers(arr, try_parse=True, text_is_zero=True))[-n]
+    return items[-n]
